@@ -57,11 +57,22 @@ def dist2seg (p0 p1 x : V3 α) : α :=
 /-- `ref_search_xyz_normal` : `(xyz1-xyz0) × (xyz2-xyz0)` -/
 @[inline] def xyzNormal (p0 p1 p2 : V3 α) : V3 α := cross (vsub p1 p0) (vsub p2 p0)
 
-/-- the in-plane foot `xyzp` of `ref_search_distance3` (projection along the *un-normalised* normal) -/
+/-- the in-plane foot `xyzp` of `ref_search_distance3` (projection along the *un-normalised* normal:
+    `xyzp = x - N (N·(x-p0))`, which is the orthogonal projection only when `|N| = 1`) -/
 def tri3Foot (p0 p1 p2 x : V3 α) : V3 α :=
   let n := xyzNormal p0 p1 p2
   let q := vsub x p0
   let total := dot q n
+  let q : V3 α := ⟨q.x -. n.x *. total, q.y -. n.y *. total, q.z -. n.z *. total⟩
+  ⟨q.x +. p0.x, q.y +. p0.y, q.z +. p0.z⟩
+
+/-- candidate repair (NOT what /repo does today): after `total = dot(xyzp, N)` insert
+    `if (ref_math_divisible(total, dot(N,N))) total /= dot(N,N);` so that `xyzp` is the orthogonal projection -/
+def tri3FootFixed (p0 p1 p2 x : V3 α) : V3 α :=
+  let n := xyzNormal p0 p1 p2
+  let q := vsub x p0
+  let total := dot q n
+  let total := if Scalar.divisible total (dot n n) then total /. dot n n else total
   let q : V3 α := ⟨q.x -. n.x *. total, q.y -. n.y *. total, q.z -. n.z *. total⟩
   ⟨q.x +. p0.x, q.y +. p0.y, q.z +. p0.z⟩
 
@@ -70,17 +81,15 @@ def tri3BaryAt (p0 p1 p2 xp : V3 α) : V3 α :=
   let n := xyzNormal p0 p1 p2
   ⟨dot (xyzNormal xp p1 p2) n, dot (xyzNormal p0 xp p2) n, dot (xyzNormal p0 p1 xp) n⟩
 
-def tri3Bary (p0 p1 p2 x : V3 α) : V3 α := tri3BaryAt p0 p1 p2 (tri3Foot p0 p1 p2 x)
-
 /-- the edge fall-back of `ref_search_distance3` -/
 def tri3Edges (p0 p1 p2 x : V3 α) : α :=
   let d := dist2seg p0 p1 x
   let d := Scalar.cmin d (dist2seg p1 p2 x)
   Scalar.cmin d (dist2seg p2 p0 x)
 
-/-- `ref_search_distance3`: point–triangle distance -/
-def dist2tri (p0 p1 p2 x : V3 α) : α :=
-  let b := tri3Bary p0 p1 p2 x
+/-- `ref_search_distance3` with the foot computation as a parameter -/
+def dist2triWith (foot : V3 α → V3 α → V3 α → V3 α → V3 α) (p0 p1 p2 x : V3 α) : α :=
+  let b := tri3BaryAt p0 p1 p2 (foot p0 p1 p2 x)
   let total := b.x +. b.y +. b.z
   if Scalar.divisible b.x total && Scalar.divisible b.y total && Scalar.divisible b.z total then
     let b0 := b.x /. total
@@ -93,6 +102,13 @@ def dist2tri (p0 p1 p2 x : V3 α) : α :=
       Scalar.sqrt (dot d d)
     else tri3Edges p0 p1 p2 x
   else tri3Edges p0 p1 p2 x
+
+/-- `ref_search_distance3`: point–triangle distance, as in /repo today.
+    (When the repair lands, this is the one line to flip: `dist2triWith tri3FootFixed`.) -/
+def dist2tri (p0 p1 p2 x : V3 α) : α := dist2triWith tri3Foot p0 p1 p2 x
+
+/-- `ref_search_distance3` with the candidate repair -/
+def dist2triFixed (p0 p1 p2 x : V3 α) : α := dist2triWith tri3FootFixed p0 p1 p2 x
 
 /-! ## bounding sphere (`ref_node_bounding_sphere_xyz`) -/
 
